@@ -1129,9 +1129,9 @@ impl Check for C18 {
     }
     fn phases(&self, tier: Tier) -> Vec<PhaseSpec> {
         vec![
-            PhaseSpec { name: "values", cases: tier.pick(20_000, 120_000), max_bytes: 400, exhaustive: false },
-            PhaseSpec { name: "names", cases: tier.pick(8_000, 40_000), max_bytes: 300, exhaustive: false },
-            PhaseSpec { name: "strings", cases: tier.pick(10_000, 50_000), max_bytes: 400, exhaustive: false },
+            PhaseSpec { name: "values", cases: tier.pick(40_000, 120_000), max_bytes: 400, exhaustive: false },
+            PhaseSpec { name: "names", cases: tier.pick(16_000, 40_000), max_bytes: 300, exhaustive: false },
+            PhaseSpec { name: "strings", cases: tier.pick(20_000, 50_000), max_bytes: 400, exhaustive: false },
         ]
     }
     fn make(&self, phase: &str, _index: u64, bytes: &[u8], ctx: &mut Ctx) -> Case {
